@@ -450,6 +450,7 @@ func (n *Nodis) ZMin(key string) *zset.Item {
 func (n *Nodis) ZUnion(keys []string, weights []float64, aggregate string) []*zset.Item {
 	var v []*zset.Item
 	_ = n.exec(func(tx *Tx) error {
+		tx.lockKeys(nil, keys...)
 		var items = make(map[string]float64)
 		for i, key := range keys {
 			m := tx.readKey(key)
@@ -531,6 +532,7 @@ func (n *Nodis) ZUnionStore(destination string, keys []string, weights []float64
 func (n *Nodis) ZInter(keys []string, weights []float64, aggregate string) []*zset.Item {
 	var v []*zset.Item
 	_ = n.exec(func(tx *Tx) error {
+		tx.lockKeys(nil, keys...)
 		var items = make(map[string]float64)
 		for i, key := range keys {
 			m := tx.readKey(key)
